@@ -29,7 +29,7 @@ Definition has_actions (c : cfg) : bool :=
 Definition classify (c : cfg) (s : srv) (eio : str) (payload : pv) (tbl : jtable) : option (Res rpacket) :=
   match aget str_eqb (binpkt s) eio with
   | Some _ => None                                   (* an attachment for a pending binary packet *)
-  | None => Some (decode (table_loads tbl) payload)
+  | None => Some (decode_any c (table_loads tbl) payload)
   end.
 
 Definition calls_of (l : list eff) : list (N * list pv) :=
@@ -49,4 +49,4 @@ Definition all_sids (m : mgr) : list (str * str * str) :=      (* (ns, sid, eio)
 
 (* frames an ACK / EVENT with these fields must consist of *)
 Definition frames_of (c : cfg) (t : Z) (data : pv) (ns : str) (id : option Z) : Res (list pv) :=
-  p <- ctor (uses_binary c) t data (Some ns) id None ;; enc <- encode p ;; Ok (pieces_of enc).
+  p <- ctor (uses_binary c) t data (Some ns) id None ;; encode_pieces c p.
